@@ -53,7 +53,26 @@ let () =
       else if new_close_body c r <> body then Diff "model body differs"
       else Pass (List.length r > 0)
     | _ -> Diff "malformed line");
+  (* C03K: "Close bodies built by the library ... parse back to the same code": the precompiled frames *)
+  register "C03K" (fun i o -> match i, o with
+    | [name; code], (hfin :: hrsv :: hop :: hmasked :: _hmask :: hlen :: rest) when List.length rest = 3 ->
+      (match rest with
+       | [pc; pr; total] ->
+         let code = int_of_string code in
+         if hfin <> "1" || hrsv <> "0" || hop <> "8" || hmasked <> "0" then Viol ("precompiled close frame " ^ name ^ " is not a final unmasked close frame")
+         else if int_of_string total <> 2 + int_of_string hlen then Viol ("precompiled close frame " ^ name ^ " has bytes beyond its frame")
+         else if int_of_string pc <> code then Viol (Printf.sprintf "precompiled close frame %s carries code %s, not %d" name pc code)
+         else if code = 0 && hlen <> "0" then Viol "the empty precompiled close frame has a payload"
+         else if check_close (n_of_int code) (bytes_of_hex pr) <> None && code <> 0 && code <> 1004 && code <> 1015 then Viol ("precompiled close frame " ^ name ^ " would be refused by the close-payload check")
+         else Pass true
+       | _ -> Diff "malformed line")
+    | [name; op], [b] ->
+      let want = (match name with "Ping" -> "8900" | _ -> "8a00") in
+      if b <> want then Viol ("precompiled " ^ name ^ " frame is not the empty unmasked " ^ name ^ " frame (opcode " ^ op ^ ")") else Pass true
+    | [name; _], ("bad" :: _) -> Viol ("precompiled close frame " ^ name ^ " does not parse as a frame")
+    | _ -> Diff "malformed line");
   register "C03P" (fun i o -> match i, o with
+    | [_], [_; _; "panic"] -> Viol "close-payload parser panicked"
     | [p], [pc; pr; agree] ->
       let p = bytes_of_hex p in
       let (mc, mr) = parse_close p in
